@@ -60,7 +60,7 @@ pub fn collect_hulc_data<T: AsRef<str>>(
 
     let mut ecdata = Model::try_from(&ctehexmldata)?;
     // Interpreta .kyg y añade datos que faltan con archivos adicionales
-    fix_ecdata_from_extra(&mut ecdata, &kygpath, &tblpath);
+    fix_ecdata_from_extra(&mut ecdata, &kygpath, &tblpath)?;
     // Devuelve datos ampliados y corregidos (U, Fshobst)
     Ok(ecdata)
 }
@@ -70,7 +70,7 @@ pub fn fix_ecdata_from_extra<T: AsRef<Path>>(
     model: &mut Model,
     kygpath: &Option<T>,
     tblpath: &Option<T>,
-) {
+) -> Result<(), Error> {
     let ind = model.energy_indicators();
 
     let mut extra = model
@@ -103,7 +103,7 @@ pub fn fix_ecdata_from_extra<T: AsRef<Path>>(
     // Interpreta .kyg y añade datos que faltan
     // TODO: Los añadimos al overrides... podríamos eliminar el extra
     if let Some(kygpath) = &kygpath {
-        let kygdata = kyg::parse_from_path(kygpath).unwrap();
+        let kygdata = kyg::parse_from_path(kygpath)?;
 
         // Modifica U de muros con datos del .kyg
         // XXX: hay que tener cuidado porque estos valores tienen desviaciones con los que se muestran en
@@ -158,12 +158,17 @@ pub fn fix_ecdata_from_extra<T: AsRef<Path>>(
 
     // Actualizamos datos de U de particiones interiores desde el archivo .tbl
     if let Some(tblpath) = &tblpath {
-        let tbldata = tbl::parse(tblpath).unwrap();
+        let tbldata = tbl::parse(tblpath)?;
         for e in &mut extra {
             if e.bounds != BoundaryType::INTERIOR {
                 continue;
             };
-            let w = tbldata.elements.get(e.name.as_str()).unwrap();
+            let w = tbldata.elements.get(e.name.as_str()).ok_or_else(|| {
+                format_err!(
+                    "No se ha encontrado el elemento {} en el archivo .tbl",
+                    e.name
+                )
+            })?;
             let u_value_override = fround2(w.u);
             e.u = u_value_override;
 
@@ -185,4 +190,5 @@ pub fn fix_ecdata_from_extra<T: AsRef<Path>>(
     extra.retain(|e| f32::abs(e.u - e.computed_u) > 0.001);
 
     model.extra = Some(extra);
+    Ok(())
 }
